@@ -471,6 +471,7 @@ func getInt(r *R, size int) (uint64, error) {
 	if err != nil {
 		return 0, err
 	}
+	r.note(r.Pos-size, "fixed")
 	var buf [8]byte
 	copy(buf[:], b)
 	return binary.LittleEndian.Uint64(buf[:]), nil
